@@ -193,3 +193,53 @@ func isZeroConst(v ssa.Value) bool {
 	k, ok := constInt(v)
 	return ok && k == 0
 }
+
+// indexLoop recognises the two ways Go code walks indices 0 … bound−1 and
+// returns the SSA value that is the index inside the body and the bound:
+//
+//	for i := range s / for i, x := range s   (header phi starts at −1, index = phi+1, cond phi+1 < len)
+//	for i := 0; i < n; i++                    (header phi starts at 0, index = phi, cond phi < n or n > phi)
+//
+// ok is false for anything else (other start, other step, other comparison).
+func indexLoop(h *ssa.BasicBlock) (idx ssa.Value, bound ssa.Value, ok bool) {
+	if h == nil || len(h.Instrs) == 0 {
+		return nil, nil, false
+	}
+	iff, isIf := h.Instrs[len(h.Instrs)-1].(*ssa.If)
+	if !isIf {
+		return nil, nil, false
+	}
+	cmp, isCmp := iff.Cond.(*ssa.BinOp)
+	if !isCmp {
+		return nil, nil, false
+	}
+	var lhs, rhs ssa.Value
+	switch cmp.Op {
+	case token.LSS:
+		lhs, rhs = cmp.X, cmp.Y
+	case token.GTR:
+		lhs, rhs = cmp.Y, cmp.X
+	default:
+		return nil, nil, false
+	}
+	// the true edge must stay in the loop
+	body := loopBody(h)
+	if len(h.Succs) != 2 || !body[h.Succs[0]] {
+		return nil, nil, false
+	}
+	if bo, isBo := lhs.(*ssa.BinOp); isBo && bo.Op == token.ADD {
+		if phi, isPhi := bo.X.(*ssa.Phi); isPhi && phi.Block() == h {
+			if k, isK := constInt(bo.Y); isK && k == 1 {
+				if _, isCtr := counterIncrements(phi, func(v ssa.Value) bool { k, ok := constInt(v); return ok && k == -1 }); isCtr {
+					return bo, rhs, true
+				}
+			}
+		}
+	}
+	if phi, isPhi := lhs.(*ssa.Phi); isPhi && phi.Block() == h {
+		if _, isCtr := counterIncrements(phi, isZeroConst); isCtr {
+			return phi, rhs, true
+		}
+	}
+	return nil, nil, false
+}
